@@ -191,6 +191,38 @@ func c08Files(dir string) []string {
 	return out
 }
 
+// an integer constant declared inside a function body
+func c08LocalConst(rel, fn, name string) string {
+	fd := findFunc(rel, fn)
+	if fd == nil || fd.Body == nil {
+		return "0"
+	}
+	var found ast.Expr
+	ast.Inspect(fd.Body, func(n ast.Node) bool {
+		if gd, ok := n.(*ast.GenDecl); ok && gd.Tok == token.CONST {
+			for _, sp := range gd.Specs {
+				vs := sp.(*ast.ValueSpec)
+				for i, id := range vs.Names {
+					if id.Name == name && i < len(vs.Values) {
+						found = vs.Values[i]
+					}
+				}
+			}
+		}
+		return true
+	})
+	if found == nil {
+		fail("%s: no constant %s in %s", rel, name, fn)
+		return "0"
+	}
+	v, ok := evalInt(found, nil)
+	if !ok {
+		fail("%s: %s in %s is not a constant integer expression", rel, name, fn)
+		return "0"
+	}
+	return v.ExactString()
+}
+
 func c08RuneArray(rel, name string) (string, int, bool) {
 	e := findValue(rel, name)
 	if e == nil {
@@ -345,6 +377,11 @@ func init() {
 				fail("%s: Reset is not a constant string", colGo)
 			}
 		}
+		// caps of the array builders (function-local constants of funcsRange.go)
+		const rangeGo = "pkg/expressions/stdlib/funcsRange.go"
+		g.def("maxRangeElements", "Z", coqZ(c08LocalConst(rangeGo, "kfArrayRange", "maxRangeElements")), rangeGo+": kfArrayRange, largest array @range builds")
+		g.def("forMaxIterations", "Z", coqZ(c08LocalConst(rangeGo, "kfArrayFor", "MAX_ITERATIONS")), rangeGo+": kfArrayFor MAX_ITERATIONS")
+		g.def("forMaxOutputBytes", "Z", coqZ(c08LocalConst(rangeGo, "kfArrayFor", "MAX_OUTPUT_BYTES")), rangeGo+": kfArrayFor MAX_OUTPUT_BYTES")
 		gens = append(gens, g)
 
 		// ---------------- GenPanicSites ----------------
